@@ -63,8 +63,10 @@ def simplify_specifiers(spec):
     if lt and gt:
         if lt.version not in gt or gt.version not in lt:
             raise err()
-        if ( gt.version == lt.version and gt.operator == '>=' and
-             lt.operator == '<='):
+        if ( Version(gt.version) == Version(lt.version) and
+             gt.operator == '>=' and lt.operator == '<='):
+            if any(gt.version not in i for i in ne):
+                raise err()
             return SpecifierSet('=={}'.format(gt.version))
 
     return SpecifierSet(
